@@ -161,12 +161,12 @@ def c17(tier, seed):
 
 
 def _c17(tier, seed):
-    return combine([format_family(tier)], ['midpoints', 'values'],
+    return combine([format_family(tier)], ['midpoints', 'mixed_currency_echoes'],
                    'money values in thousandths of a pound (every half-penny midpoint in -3..3, magnitudes around every digit-count '
                    'boundary up to 2,000,000, each netted against a loss of 5.006 in the same tax year) placed in the slots of a '
                    'TaxReport and shown by the plain-text formatter, the JSON serialiser and the PDF (text runs of the compiled '
                    'document via the verif hook); expected strings come from Format.tla (RoundPence, Gbp, TaxYearLabel, DateUk); '
-                   'every tax-year label 1900..2100; non-trivial = midpoint values',
+                   'every tax-year label 1900..2100; echoes of BUY/SELL lines and asset events (PriceText, CurCell, EventText, QtyText) for every pairing of price and fee currency in GBP/USD/EUR: text line, JSON amounts and currencies, PDF table cells; non-trivial = midpoint values + mixed-currency echoes',
                    assumptions=['MCP front-end: calculate_report payloads are digest-compared with the CLI and explain_matching figures with the report (lib/vcheck/mcp.py)'])
 
 
